@@ -311,6 +311,11 @@ func genGates(rt *rapid.T) GateScript {
 			if !l.present {
 				mode = "none"
 			}
+			if i == victim && l.present && rapid.IntRange(0, 4).Draw(rt, "null_with_header") == 0 {
+				// the argument is JSON null, yet a header claims a value for it: as stray as one for an absent argument
+				l.node.Arg, l.present = "null", false
+				leaves[i].present = false
+			}
 			if i == victim {
 				if l.present && l.node.Kind == "string" && rapid.IntRange(0, 3).Draw(rt, "make_lookalike") == 0 {
 					l.node.Str, l.node.Rep = rapid.SampledFrom([]string{"=?base64?literal?=", "=?base64??=", "=?base64?YWJj?=", "=?base64?@@?=", "=?base64?YQ?="}).Draw(rt, "lookalike"), 0
